@@ -407,6 +407,19 @@ class Gen:
                 # the context is the document root followed by inner nodes: the operator still works per input node
                 return ("pipe", ("union", ("self",), self.path(1)), (op, self.scalar(0, vs), self.scalar(0, vs)))
             return (op, self.scalar(d - 1, vs), self.scalar(d - 1, vs))
+        if r < 0.515:
+            # array subtraction removes the elements equal to an element of the RHS, and only those (nulls, type-looking strings)
+            def seqx():
+                if self.doc is not None and rng.random() < 0.4:
+                    ls = [p for p in doc_paths(self.doc) if isinstance(_get(self.doc, p), list)]
+                    if ls:
+                        return path_expr(rng.choice(ls))
+                items = [lit(rng.choice([None, None, 1, 2, "1", "a", True, "null", 0])) for _ in range(rng.choice([1, 2, 3, 4]))]
+                e = items[0]
+                for it in items[1:]:
+                    e = ("union", e, it)
+                return ("collect", e)
+            return ("sub", seqx(), seqx())
         if r < 0.535:
             bodies = [("self",), ("select", (rng.choice(["gt", "lt", "ne"]), ("getkey", "value"), lit(rng.choice(INTS[:4])))),
                       ("select", ("ne", ("getkey", "key"), lit(rng.choice(KEYS)))), ("union", ("self",), ("self",)),
@@ -459,7 +472,11 @@ class Gen:
             body = rng.choice([("add", ("self",), ("var", x)), ("add", ("self",), ("var", x)),
                                ("add", ("self",), ("alt", ("pipe", ("var", x), ("getkey", rng.choice(KEYS))), lit(1))),
                                ("add", ("self",), ("pipe", ("var", x), ("length",))),
-                               ("collect", ("union", ("self",), ("pipe", ("var", x), ("index", ("self",), lit(rng.choice([0, 2]))))))])
+                               ("collect", ("union", ("self",), ("pipe", ("var", x), ("index", ("self",), lit(rng.choice([0, 2])))))),
+                               # the block yields nothing for some elements (the accumulator becomes empty) and restarts from $x later
+                               ("pipe", ("var", x), ("select", ("gt", ("self",), lit(rng.choice([0, 1, 2]))))),
+                               ("select", ("lt", ("var", x), lit(rng.choice([1, 2, 3])))),
+                               ("alt", ("pipe", ("var", x), ("select", ("ne", ("self",), lit(1)))), ("self",))])
             return ("reduce", self.path(d), x, lit(rng.choice([0, "", None])), body)
         if r < 0.945 and self.doc is not None:
             # deep merge of two containers of the document (all 16 flag sets)
